@@ -90,6 +90,10 @@ fn main() {
         "c19b" => c19b::run(&p),
         "c20" => c20::run(&p),
         "noop" => (Stats::new(), "noop"),
+        "c07-debug" => {
+            c07::debug_thr(p.seed);
+            return;
+        }
         "c10-debug" => {
             c10::debug(p.get("seq").unwrap_or(""), p.seed);
             return;
